@@ -22,8 +22,8 @@ NPROC = int(os.environ.get("VERIF_PROCS", "0")) or min(16, os.cpu_count() or 4)
 # histories per tier, number of distinct hash seeds (workers), watchdog seconds
 TIERS = {
     "C07": {"quick": (2304, 16, 600), "thorough": (46080, 64, 3600)},
-    "C19": {"quick": (1536, 16, 600), "thorough": (30720, 64, 3600)},
-    "C20": {"quick": (1536, 16, 600), "thorough": (30720, 64, 3600)},
+    "C19": {"quick": (6144, 16, 600), "thorough": (122880, 64, 3600)},
+    "C20": {"quick": (16384, 16, 600), "thorough": (327680, 64, 3600)},
 }
 BLOCK = 16  # consecutive run indices (one full subject-type rotation) per deal
 
@@ -121,7 +121,7 @@ def sig_slug(sig):
 
 
 def write_replay(prop, vseed, hist, hash_seed, violation, chain, src, note=None):
-    d = os.path.join(VERIF, "replays", prop)
+    d = os.path.join(os.environ.get("VERIF_REPLAY_DIR") or os.path.join(VERIF, "replays"), prop)
     os.makedirs(d, exist_ok=True)
     path = os.path.join(d, "%s-%s.json" % (hist.get("run_seed", 0), sig_slug(violation["sig"])))
     with open(path, "w") as f:
@@ -342,8 +342,9 @@ def run_check(prop, tier):
             os.rmdir(os.path.join(VERIF, ".work"))
         except OSError:
             pass
-    os.makedirs(os.path.join(VERIF, "evidence"), exist_ok=True)
-    with open(os.path.join(VERIF, "evidence", prop + ".json"), "w") as f:
+    evdir = os.environ.get("VERIF_EVIDENCE_DIR") or os.path.join(VERIF, "evidence")
+    os.makedirs(evdir, exist_ok=True)
+    with open(os.path.join(evdir, prop + ".json"), "w") as f:
         json.dump(evidence, f, indent=1, sort_keys=True, default=str)
     for l in known_lines:
         print(l)
